@@ -12,7 +12,7 @@ import TraitsVerif.Lemmas.MapStep
 import TraitsVerif.Generated.Mutators
 import TraitsVerif.Generated.DictEvent
 namespace TraitsVerif.Props.C06
-open TraitsVerif TraitsVerif.Py TraitsVerif.Model
+open TraitsVerif TraitsVerif.Py TraitsVerif.Model.Map
 open TraitsVerif.Py.Dict (get? contains set erase update ofPairs Op Ret WF)
 
 variable {K V : Type} [DecidableEq K]
@@ -34,37 +34,37 @@ theorem C06_refines_unconditional (kv : Callback K K) (vv : Callback V V) (d : D
   apply step_refines
   cases op <;> simp_all [SetdefaultHyp]
 
-/-- `str(x)` on the harness atoms (`Py.Atom.strV`). -/
-local notation "tostr" => Atom.strV
+/-- `str(x)` on the harness atoms (`Py.KAtom.strV`). -/
+local notation "tostr" => KAtom.strV
 
 /-- **Negation witness (F13).**  `TraitDict({'1': '2'}, key_validator=str,
 value_validator=str).setdefault(1, 4)`: the model (like the code) overwrites to
 `{'1': '4'}` and returns `'4'`; the builtin dict on the validated arguments keeps
 `'2'`.  So the hypothesis of `C06_refines` cannot be dropped. -/
 theorem C06_refines_fails_at :
-    ¬ Refines tostr tostr [(Atom.str 1, Atom.str 2)] (.setdefault (.int 1) (.int 4)) := by
+    ¬ Refines tostr tostr [(KAtom.str 1, KAtom.str 2)] (.setdefault (.int 1) (.int 4)) := by
   unfold Refines; decide
 
-/-- The full-strength refinement statement (`Model.C06RefinesFull`) is false of
+/-- The full-strength refinement statement (`Model.Map.C06RefinesFull`) is false of
 the code as it stands. -/
-theorem C06_refines_full_fails : ¬ C06RefinesFull Atom Atom := by
+theorem C06_refines_full_fails : ¬ C06RefinesFull KAtom KAtom := by
   intro h
   exact C06_refines_fails_at (h tostr tostr _ _ (by decide))
 
 /-- What the model computes on the F13 input (the oracle replays the same input
 on the real code). -/
 theorem C06_F13_model_behaviour :
-    TraitDict.step tostr tostr [(Atom.str 1, Atom.str 2)] (.setdefault (.int 1) (.int 4)) =
+    TraitDict.step tostr tostr [(KAtom.str 1, KAtom.str 2)] (.setdefault (.int 1) (.int 4)) =
       .ok { items := [(.str 1, .str 4)], ret := .val (.str 4),
             event := some ⟨[], [], [(.str 1, .str 2)]⟩ } := by decide
 
 /-- Non-vacuity of `C06_refines`: a coercing validator, a `setdefault` whose
 validated key is new, and an `update` with a duplicate key after coercion. -/
-example : SetdefaultHyp tostr [(Atom.str 1, Atom.str 2)] (.setdefault (.int 3) (.int 4)) ∧
-    TraitDict.step tostr tostr [(Atom.str 1, Atom.str 2)] (.setdefault (.int 3) (.int 4)) =
+example : SetdefaultHyp tostr [(KAtom.str 1, KAtom.str 2)] (.setdefault (.int 3) (.int 4)) ∧
+    TraitDict.step tostr tostr [(KAtom.str 1, KAtom.str 2)] (.setdefault (.int 3) (.int 4)) =
       .ok { items := [(.str 1, .str 2), (.str 3, .str 4)], ret := .val (.str 4),
             event := some ⟨[], [(.str 3, .str 4)], []⟩ } ∧
-    TraitDict.step tostr tostr [(Atom.str 1, Atom.str 2)]
+    TraitDict.step tostr tostr [(KAtom.str 1, KAtom.str 2)]
         (.update [(.int 5, .int 6), (.int 1, .int 7), (.str 5, .int 8)]) =
       .ok { items := [(.str 1, .str 7), (.str 5, .str 8)], ret := .none,
             event := some ⟨[], [(.str 5, .str 8)], [(.str 1, .str 2)]⟩ } := by
@@ -247,29 +247,29 @@ the fix (`added` written without `added = added.copy()`), `d['a'] = 2` on
 `added = {'a': 2}` together with `changed = {'a': 1}`, which is not a faithful
 delta: the copy is what makes `C06_every_notifier` true. -/
 theorem C06_every_notifier_needs_added_copy :
-    notifyAllProg factoryBodyPreFix [(Atom.str 1, Atom.int 2)] [.observer, .raw]
-        ⟨[], [], [(Atom.str 1, Atom.int 1)]⟩ =
+    notifyAllProg factoryBodyPreFix [(KAtom.str 1, KAtom.int 2)] [.observer, .raw]
+        ⟨[], [], [(KAtom.str 1, KAtom.int 1)]⟩ =
       [.event ⟨[(.str 1, .int 1)], [(.str 1, .int 2)]⟩,
        .raw ⟨[], [(.str 1, .int 2)], [(.str 1, .int 1)]⟩] ∧
-    ¬ (Seen.raw ⟨[], [(Atom.str 1, Atom.int 2)], [(Atom.str 1, Atom.int 1)]⟩ : Seen Atom Atom).Faithful
-        [(Atom.str 1, Atom.int 1)] [(Atom.str 1, Atom.int 2)] := by
+    ¬ (Seen.raw ⟨[], [(KAtom.str 1, KAtom.int 2)], [(KAtom.str 1, KAtom.int 1)]⟩ : Seen KAtom KAtom).Faithful
+        [(KAtom.str 1, KAtom.int 1)] [(KAtom.str 1, KAtom.int 2)] := by
   refine ⟨by decide, ?_⟩
   intro h
-  have := (h.added_new (Atom.str 1) (Atom.int 2) (by decide)).1
+  have := (h.added_new (KAtom.str 1) (KAtom.int 2) (by decide)).1
   exact absurd this (by decide)
 
 /-- Non-vacuity of the event theorems: an overwrite observed by
 `[observer, raw, observer]`; the raw notifier placed after an observer still
 sees `added = {}`. -/
 example :
-    WF [(Atom.str 1, Atom.str 2), (Atom.str 3, Atom.str 4)] ∧
+    WF [(KAtom.str 1, KAtom.str 2), (KAtom.str 3, KAtom.str 4)] ∧
     TraitDict.notifications tostr tostr [.observer, .raw, .observer]
-        [(Atom.str 1, Atom.str 2), (Atom.str 3, Atom.str 4)] (.setitem (.int 1) (.int 9)) =
+        [(KAtom.str 1, KAtom.str 2), (KAtom.str 3, KAtom.str 4)] (.setitem (.int 1) (.int 9)) =
       [.event ⟨[(.str 1, .str 2)], [(.str 1, .str 9)]⟩,
        .raw ⟨[], [], [(.str 1, .str 2)]⟩,
        .event ⟨[(.str 1, .str 2)], [(.str 1, .str 9)]⟩] ∧
-    reconstruct [(Atom.str 1, Atom.str 9), (Atom.str 3, Atom.str 4)] ⟨[], [], [(Atom.str 1, Atom.str 2)]⟩ =
-      [(Atom.str 1, Atom.str 2), (Atom.str 3, Atom.str 4)] := by decide
+    reconstruct [(KAtom.str 1, KAtom.str 9), (KAtom.str 3, KAtom.str 4)] ⟨[], [], [(KAtom.str 1, KAtom.str 2)]⟩ =
+      [(KAtom.str 1, KAtom.str 2), (KAtom.str 3, KAtom.str 4)] := by decide
 
 /-! ### Invariants -/
 
@@ -346,10 +346,10 @@ theorem C06_history_refines (kv : Callback K K) (vv : Callback V V) (ops : List 
 validator, duplicate keys and two `setdefault`s whose hypothesis holds at each
 step, and the history it yields. -/
 example :
-    AlongRun tostr tostr (SetdefaultHyp tostr) [(Atom.str 1, Atom.str 2)]
+    AlongRun tostr tostr (SetdefaultHyp tostr) [(KAtom.str 1, KAtom.str 2)]
       [.setdefault (.str 1) (.int 0), .update [(.int 3, .int 4), (.str 3, .int 5)],
        .setdefault (.int 7) (.int 8), .popitem, .delitem (.int 3)] ∧
-    (TraitDict.run tostr tostr [(Atom.str 1, Atom.str 2)]
+    (TraitDict.run tostr tostr [(KAtom.str 1, KAtom.str 2)]
       [.setdefault (.str 1) (.int 0), .update [(.int 3, .int 4), (.str 3, .int 5)],
        .setdefault (.int 7) (.int 8), .popitem, .delitem (.int 3)]).map (·.map DOut.proj) =
       [.ok ([(.str 1, .str 2)], .val (.str 2)),
